@@ -121,9 +121,9 @@ def groups(tier):
     gs = []
     n2 = len(e2e.tables(2))
     combos = [("plain", "plain"), ("plain", "symmetry"), ("plain", "inferral"), ("eqpath", "plain"), ("eqpath", "inferral"),
-              ("eqpath", "drop"), ("eqpath", "drop-two")]
+              ("eqpath", "drop")]
     if tier == "thorough":
-        combos += [("eqpath", "symmetry"), ("plain", "inferral-symmetry"), ("eqpath", "inferral-symmetry"), ("plain", "drop")]
+        combos += [("eqpath", "symmetry"), ("plain", "inferral-symmetry"), ("eqpath", "inferral-symmetry"), ("plain", "drop"), ("eqpath", "drop-two")]
     for finder, opt in combos:
         step = 8
         for lo in range(0, n2, step):
